@@ -194,7 +194,8 @@ static void dump_rec(const ares_dns_record_t *rec)
     ares_dns_record_query_get(rec, i, &name, &qt, &qc);
     if (i) printf(",");
     putstrhex(name);
-    printf("/%ld/%ld", (long)qt, (long)qc);
+    /* the enums may be unsigned: print the int that was passed in (cases use negative values too) */
+    printf("/%ld/%ld", (long)(int)qt, (long)(int)qc);
   }
   printf("]");
   for (s = 1; s <= 3; s++) {
